@@ -24,8 +24,7 @@ mod execution;
 #[cfg(scylla_verif)]
 pub(crate) mod verif_execution {
     pub(crate) use super::execution::{
-        AttemptTarget, RequestExecutionOutcome, RequestExecutionParams, RequestPaging,
-        RunRequestResult,
+        AttemptTarget, RequestExecutionParams, RequestPaging, RunRequestResult,
     };
 }
 
